@@ -90,6 +90,13 @@ class RealFs(RealVolumeOf, Fs):
         os.mkdir(path, mode)
 
     def move(self, path, dest):
+        # When the move is a copy to another file system followed by the
+        # removal of the source, a source path that runs through the directory
+        # being removed ('d/../../dir') stops resolving half-way: name the
+        # entry through its resolved parent directory instead.
+        parent, name = os.path.split(path)
+        if name not in ('', os.path.curdir, os.path.pardir):
+            path = os.path.join(os.path.realpath(parent), name)
         return fs.move(path, dest)
 
     def remove_file(self, path):
